@@ -1010,4 +1010,14 @@ example :
     r.1.connected = true ∧ r.1.consumers = 3 ∧ r.1.readQ = [] ∧ r.1.rUnf = 0 ∧ addrs r.1 = [69, 81] ∧
     nPut 81 186 (outs r) = 1 ∧ nDel 81 186 (outs r) = 2 ∧ pendF exGated 81 186 = 1 := by decide
 
+
+/-- frames that cannot be delivered (payload undecodable, sender without a device class) are
+disposed of (pseudo kind 0) without costing a consumer: three consumers survive four of them,
+and the password frame behind them reaches the ecoMAX entry -/
+example :
+    let r := run (init 3 true []) [.connect, .prodStart, .feed .undec, .take, .feed (.orphan 86), .take, .feed .undec, .take,
+      .feed (.orphan 0), .take, .feed (.pw 69), .take]
+    r.1.consumers = 3 ∧ r.1.rUnf = 0 ∧ addrs r.1 = [69] ∧ nPut 69 0 (outs r) = 2 ∧ nDel 69 0 (outs r) = 2 ∧
+    nDel 86 0 (outs r) = 1 ∧ nDel 69 186 (outs r) = 1 := by decide
+
 end PlumVerif.C11
